@@ -110,6 +110,68 @@ type bprover struct {
 	w    *World
 	memo map[ssa.Value]bounds
 	busy map[ssa.Value]bool
+	at   *ssa.BasicBlock // block of the site being proven (for dominating length-equality guards)
+	inEq bool
+}
+
+// copyOf: v is append(<empty slice>, x...): a fresh copy whose length is len(x); returns x.
+func copyOf(v ssa.Value) (ssa.Value, bool) {
+	call, ok := v.(*ssa.Call)
+	if !ok {
+		return nil, false
+	}
+	bi, ok := call.Common().Value.(*ssa.Builtin)
+	if !ok || bi.Name() != "append" || len(call.Common().Args) != 2 {
+		return nil, false
+	}
+	base := call.Common().Args[0]
+	empty := false
+	switch b := base.(type) {
+	case *ssa.Const:
+		empty = b.Value == nil
+	case *ssa.Slice:
+		if al, ok := b.X.(*ssa.Alloc); ok {
+			if arr, ok := derefType(al.Type()).Underlying().(*types.Array); ok && arr.Len() == 0 {
+				empty = true
+			}
+		}
+	case *ssa.MakeSlice:
+		if k, ok := b.Len.(*ssa.Const); ok && k.Value != nil && k.Int64() == 0 {
+			empty = true
+		}
+	}
+	if !empty {
+		return nil, false
+	}
+	return call.Common().Args[1], true
+}
+
+// lenEqGuard: on every path to bp.at, len(a) == len(b) was established by a dominating test.
+func (bp *bprover) lenEqGuard(a, b ssa.Value) bool {
+	if bp.at == nil || bp.inEq {
+		return false
+	}
+	bp.inEq = true
+	defer func() { bp.inEq = false }()
+	for _, g := range rawGuards(bp.at) {
+		bo, ok := g.cond.(*ssa.BinOp)
+		if !ok {
+			continue
+		}
+		eqHolds := (bo.Op == token.EQL && g.onTrue) || (bo.Op == token.NEQ && !g.onTrue)
+		if !eqHolds {
+			continue
+		}
+		x, okx := lenOperand(bo.X)
+		y, oky := lenOperand(bo.Y)
+		if !okx || !oky {
+			continue
+		}
+		if (bp.sameLen(a, x) && bp.sameLen(b, y)) || (bp.sameLen(a, y) && bp.sameLen(b, x)) {
+			return true
+		}
+	}
+	return false
 }
 
 // sameLen: are len(a) and len(b) provably equal? (same SSA value, or two loads of one address with nothing in
@@ -149,12 +211,20 @@ func (bp *bprover) sameLen(a, b ssa.Value) bool {
 			return true
 		}
 	}
+	if x, ok := copyOf(a); ok && bp.sameLen(x, b) {
+		return true
+	}
+	if x, ok := copyOf(b); ok && bp.sameLen(a, x) {
+		return true
+	}
 	la, ok1 := a.(*ssa.UnOp)
 	lb, ok2 := b.(*ssa.UnOp)
 	if ok1 && ok2 && la.Op == token.MUL && lb.Op == token.MUL && la.X == lb.X {
-		return noWritesBetween(la, lb) || noWritesBetween(lb, la)
+		if noWritesBetween(la, lb) || noWritesBetween(lb, la) {
+			return true
+		}
 	}
-	return false
+	return bp.lenEqGuard(a, b)
 }
 
 func stripConv(v ssa.Value) ssa.Value {
@@ -620,6 +690,7 @@ func (bp *bprover) lenAtLeast(base ssa.Value, at *ssa.BasicBlock) int64 {
 // proveSite tries to discharge one index/slice instruction.
 func (bp *bprover) proveSite(in ssa.Instruction) (bool, string) {
 	at := in.Block()
+	bp.at = at
 	switch x := in.(type) {
 	case *ssa.IndexAddr:
 		return bp.proveIndex(x.Index, x.X, at)
